@@ -361,5 +361,6 @@ pub fn secret(r: &mut Rng) -> Vec<u8> {
         13 if r.chance(1, 12) => *r.pick(&[65_533usize, 65_534, 65_535, 65_536, 65_537, 70_000]),
         _ => r.range(0, 200) as usize,
     };
+    let n = if super::small_sizes() { n.min(300) } else { n };
     r.bytes(n)
 }
